@@ -189,3 +189,34 @@ func coveredByDeferredUndo(c *Ctx, fn *FuncInfo, du deferredUndo, from nodePred,
 	}
 	return true, ""
 }
+
+// successKeepsResult: the converse of the roll-back obligation. On a return that
+// reports success (a nil error literal) after the deferred undo was registered,
+// the variable the undo tests is nil — otherwise the undo runs although the
+// caller was told the operation succeeded (and what it was handed is taken back).
+func successKeepsResult(c *Ctx, rule string, fn *FuncInfo, du deferredUndo, what string) int {
+	info := fn.Info()
+	sig := fn.Obj.Type().(*types.Signature)
+	ei := errResultIndex(sig)
+	if ei < 0 {
+		return 0
+	}
+	// a named error result is what the undo tests and what is returned: nothing to check
+	if sig.Results().At(ei) == du.errObj {
+		return 0
+	}
+	n := 0
+	for _, r := range declReturns(fn.Decl.Body) {
+		if r.Pos() < du.stmt.End() || len(r.Results) != sig.Results().Len() {
+			continue
+		}
+		if !info.Types[ast.Unparen(r.Results[ei])].IsNil() {
+			continue
+		}
+		n++
+		c.RequireF(rule, fn.Name+": a success return leaves the deferred "+what+" idle", fn, r, du.errObj.Name()+" == nil", func(e *FactEngine) (*Formula, error) {
+			return e.eqAtom(objID(du.errObj), "nil", []string{objID(du.errObj)}), nil
+		})
+	}
+	return n
+}
